@@ -46,7 +46,8 @@ func (propC07) Gen(seed uint64, tier string, idx int) *Plan {
 		if maxTO > 30*time.Second {
 			maxTO = 30 * time.Second
 		}
-		ep.CheckTimeout = pickS(r, []time.Duration{500 * time.Millisecond, time.Second, 2 * time.Second, 4 * time.Second, 8 * time.Second})
+		// up to the 30 s validation accepts: beyond 15 s a hung probe is ended by the check round's own deadline
+		ep.CheckTimeout = pickS(r, []time.Duration{500 * time.Millisecond, time.Second, 2 * time.Second, 4 * time.Second, 8 * time.Second, 20 * time.Second, 29 * time.Second})
 		if ep.CheckTimeout > maxTO {
 			ep.CheckTimeout = maxTO
 		}
@@ -194,6 +195,30 @@ func (propC07) Check(r *Run) []Violation {
 		for _, w := range r.Stack.Rec.Repo {
 			if w.Name == ep.Name {
 				writes = append(writes, w)
+			}
+		}
+		for _, w := range r.Stack.Rec.RepoLost {
+			if w.Name == ep.Name && w.Who == "hc" {
+				add("C07/check-result-not-stored", "endpoint %s at %s: the health check's result %q did not take effect, the repository holds %q afterwards (error: %q)", ep.Name, w.At, w.Asked, w.Status, w.Err)
+				break
+			}
+		}
+		// every check ends by recording its result: a real probe is followed by a health-check write
+		// within two check timeouts (retries) plus the 15 s round deadline plus slack
+		for _, pr := range probes {
+			limit := pr.at + 2*ep.CheckTimeout + 20*time.Second
+			if limit > endT {
+				continue
+			}
+			found := false
+			for _, w := range writes {
+				if w.Who == "hc" && w.At >= pr.at && w.At <= limit {
+					found = true
+				}
+			}
+			if !found {
+				add("C07/check-result-never-recorded", "endpoint %s (interval %s, timeout %s): probe at %s (%s, %s) was not followed by any health-check write until %s", ep.Name, ep.CheckInterval, ep.CheckTimeout, pr.at, pr.outcome, pr.detail, limit)
+				break
 			}
 		}
 		fRef := 0
